@@ -567,6 +567,11 @@ class Array:
             startindex = 0
         if endindex is None:
             endindex = self.shape[0]
+        # NumPy integers have a fixed width: frame boundaries computed with,
+        # e.g., an int8 chunklen would silently wrap around
+        chunklen, stepsize, startindex, endindex = \
+            (int(v) if isinstance(v, np.integer) else v
+             for v in (chunklen, stepsize, startindex, endindex))
         if startindex < 0:
             raise ValueError("startindex should be 0 or higher")
         if endindex > self.shape[0]:
@@ -794,6 +799,8 @@ def _fillgenerator(shape, dtype='float64', fill=0., fillfunc=None,
     if chunklen is None:
         chunklen = max((80 * 1024 ** 2) // (product(shape[1:]) *
                                             dtype.itemsize), 1)
+    elif isinstance(chunklen, np.integer):  # fixed width, would wrap around
+        chunklen = int(chunklen)
     nchunks, restlen = divmod(shape[0], chunklen)
     chunkshape = [chunklen] + list(shape[1:])
     chunk = np.empty(chunkshape, dtype=dtype)
@@ -816,6 +823,8 @@ def _archunkgenerator(array, dtype=None, chunklen=None):
                                                 array.dtype.itemsize)
         else:
             chunklen = 1024 ** 2
+    elif isinstance(chunklen, np.integer):  # fixed width, would wrap around
+        chunklen = int(chunklen)
     chunklen = max(chunklen, 1)
     if hasattr(array, '__next__'):  # is already an iterator, ignore chunklen
         for chunk in array:
